@@ -185,6 +185,28 @@ def check_render(case):
         plt.close("all")
         text = open(tikz).read()
         require(os.path.getsize(png) > 0, "C20:empty-image", str(d))
+        # the picture is a function of the diagram and of the drawing
+        # attributes of its boxes, not of what was drawn before: flip an
+        # attribute on one of the boxes (the idiom `box.draw_as_spider =
+        # True`) and draw again; a fresh copy of the diagram with the same
+        # attribute set before any drawing gives the same TikZ source
+        plain = [k for k, (b, _) in enumerate(spec["layers"])
+                 if b["k"] == "box"]
+        if plain and not case["bubble"] and cls in ("monoidal", "rigid"):
+            k = plain[len(spec["layers"]) % len(plain)]
+            fresh = specs.build(spec)
+            for diagram, name in ((d, "again"), (fresh, "fresh")):
+                diagram.boxes[k].draw_as_spider = True
+                diagram.draw(to_tikz=True, show=False,
+                             path=os.path.join(tmp, name + ".tikz"),
+                             draw_type_labels=case["labels"])
+                diagram.draw(path=os.path.join(tmp, name + ".png"),
+                             show=False, draw_type_labels=case["labels"])
+                plt.close("all")
+            again, first = (open(os.path.join(tmp, n + ".tikz")).read()
+                            for n in ("again", "fresh"))
+            require(again == first, "C20:picture-depends-on-earlier-drawing",
+                    lambda: "box {} of {} as a spider".format(k, d))
     for env in ("tikzpicture", "pgfonlayer"):
         require(text.count("\\begin{%s}" % env) == text.count(
             "\\end{%s}" % env) >= 1, "C20:tikz-environments",
